@@ -1,7 +1,7 @@
 from props import rc, TRUST
 
 PROP = dict(
-    rule='rapidcheck cases, each executed in a forked child whose parent never initialised the tasking system: numTaskingThreads()==0 first; a '
+    rule='rapidcheck cases, each executed in a forked child whose parent never initialised the tasking system: numTaskingThreads()==0 first and still 0 after 0..3 parallel_for calls made before any initialisation; a '
          'first initTaskingSystem(n) with n in {-7,-1,0,1, 1..2x hardware threads}; then a history of 0..4 re-initialisations with n in 1..2x '
          'hardware threads, each followed by 1..3 parallel_for loops (size 1..2000, body spin 0..300us, optional nested inner loop). Oracle: '
          'reported count == n (1 on the serial Debug backend; positive hardware default for n <= 0), and the maximum number of distinct threads '
